@@ -69,4 +69,16 @@ CHECKS = {
         text="At the model level every interleaving of 2..3 requests over methods GET/POST/PUT/FOO and outcomes is checked. In gated replay, with k requests held at TLC-chosen handler gates the scrape must show in-flight = k and exactly the spec's per-(method, code) totals, and after each release the totals must advance as the spec says (polling up to the settle timeout, since promhttp counts after the handler returned). Un-gated sequential and concurrent mixes are recorded with scrapes during and after load; TraceServer.tla rejects overshoot, regress, unknown labels, a failed scrape and non-convergence of the final scrape to the responses sent with a zero gauge.",
         note="Trusted: the text exposition format of client_golang; convergence timeout 10 s. Histogram/summary collectors (duration, sizes) are not modelled.",
     ),
+    "C09": dict(
+        level="model_checking",
+        technique="TLA+ request/response machine ProveApi.tla over a class table (numeral verdicts taken from the NumGrammar.tla character machine); TLC checks the table and enumerates/simulates request sequences; every class is concretised into an HTTP request against a live server.Run per mode, with a canary valid request after every sequence",
+        text="About 200 request classes per mode (methods; arbitrary/truncated bytes; ill-typed JSON; per numeric position: non-numbers, other notations, wrong JSON types, wrong / aliased / over-long values; index extremes; every array one too long / too short / empty incl. single ragged rows; missing and null fields; the other mode's document; valid and valid-with-extras) are each required to produce an answer in the set the statement allows, a 200 always carrying a proof that verifies for the request's input hash; sequences of three on one server plus a canary show that no request leaves state behind or kills the handler.",
+        note="Trusted: Groth16 verify as the oracle for 'valid proof'. Classes the statement leaves open are only required to yield a documented answer. Bodies are class representatives, not all byte strings.",
+    ),
+    "C16": dict(
+        level="model_checking",
+        technique="TLA+ character machine NumGrammar.tla (Go base-0 literal grammar, three-valued verdict) enumerated by TLC over all strings <= 5 over a 16-symbol alphabet, each decoded by the real UnmarshalJSON in the numeric positions of both parameter types; ParamCodec.tla round trip over shape x magnitude classes replayed through json.Marshal/Unmarshal",
+        text="Exhaustive small scope over the numeral grammar: every string must be rejected when it is a number in no notation, decoded to its value when 0x-hex, and decoded to the denoted value if accepted at all otherwise; the machine itself is cross-checked against math/big on every string (spec bug = exit 2). Round trips cover every vector of row lengths over 0..3 for batch 0..3 (rectangular, ragged, empty), magnitudes 0, 1, r-1, r, 2^256-1, leading-zero values and over-long values, and index extremes; index literals outside 32 bits must fail.",
+        note="'Identical' = equal values and equal dimensions (nil vs empty slice not distinguished). Strings longer than 5 only through named literals.",
+    ),
 }
